@@ -260,6 +260,47 @@ func recC01(c *ctx) {
 			}
 		}
 	}
+	// ---- (3a) length sweep: honest requests whose context and message lengths walk through every total 0..330 (ctx) and
+	// every context length 0..255 (ph: the message is the 64-byte prehash): input assembly must not depend on the sizes
+	// (internal buffers, block boundaries of the hash at 111/112, 127/128, 239/240 ...)
+	lstep, loff := 1, 0 // every length: the class layer costs a few milliseconds per request
+	two := []vopts{{false, true, false, false, false}, {true, true, true, true, false}}
+	for total := loff; total <= 330; total += lstep {
+		cl := 1 + r.Intn(255)
+		if cl > total {
+			cl = total
+		}
+		if cl == 0 {
+			cl = 1 // Ed25519ctx needs a non-empty context
+		}
+		ml := total - cl
+		if ml < 0 {
+			ml = 0
+		}
+		a, rr := rnd(), rnd()
+		A, R := mkSide(r, 0, a, 0), mkSide(r, 0, rr, 0)
+		emit(A, R, a, "ctx", r.Bytes(cl), r.Bytes(ml), 0, 0, two)
+		// the other split: a long context (up to 255) first
+		cl2 := total
+		if cl2 > 255 {
+			cl2 = 255
+		}
+		if cl2 >= 1 {
+			a2, rr2 := rnd(), rnd()
+			A2, R2 := mkSide(r, 0, a2, 0), mkSide(r, 0, rr2, 0)
+			emit(A2, R2, a2, "ctx", r.Bytes(cl2), r.Bytes(total-cl2), 0, 0, two)
+		}
+	}
+	for cl := loff; cl <= 255; cl += lstep {
+		a, rr := rnd(), rnd()
+		A, R := mkSide(r, 0, a, 0), mkSide(r, 0, rr, 0)
+		emit(A, R, a, "ph", r.Bytes(cl), r.Bytes(64), 0, 0, two)
+	}
+	for ml := loff; ml <= 330; ml += 2 * lstep {
+		a, rr := rnd(), rnd()
+		A, R := mkSide(r, 0, a, 0), mkSide(r, 0, rr, 0)
+		emit(A, R, a, "pure", nil, r.Bytes(ml), 0, 0, two)
+	}
 	// ---- (3b) the S range check on the whole boundary family (kL+e, per-word compare classes against L, 2^k..)
 	bd := vt.Boundary256()
 	step := 4
